@@ -358,6 +358,7 @@ func (p *recProc) PingResponse() error { p.log = append(p.log, "ping"); return n
 func (rr *rpcRun) run() {
 	s := rr.s
 	w := simrt.NewWorld(s.Seed, synctest.Wait)
+	w.StrictLocks = os.Getenv("VERIF_LOOSE_LOCKS") == ""
 	defer w.Close()
 	rr.w = w
 	w.TraceOn = os.Getenv("VERIF_TRACE") != ""
